@@ -1431,6 +1431,13 @@ func c15BoundaryCases(thorough bool) []c15Case {
 			}})
 		}
 	}
+	// the client's implicit response deadline: a Write, then a Read with a silent server and no user
+	// deadline ends after 10 s (and not before, and not never)
+	for _, udp := range []bool{false, true} {
+		seed++
+		out = append(out, c15Case{Kind: "deadline", Seed: seed, UDP: udp, Sessions: 1, End: "c", Steps: []c15Step{
+			{Op: "sr", D: 0}, {Op: "w", N: 2000}, {Op: "r", N: 10, WatchMs: 11500}, {Op: "r", N: 10, WatchMs: 700}}})
+	}
 	idle := []struct {
 		ender string
 		udp   bool
